@@ -55,6 +55,7 @@ class Fp:
         return Fp(r, self.p) if r * r % self.p == self.v else None
 
     def sgn0(self): return self.v % 2
+    def pow(self, e): return Fp(pow(self.v, e, self.p), self.p)
     def __repr__(self): return f"Fp({self.v})"
 
 
